@@ -377,6 +377,16 @@ void run(size_t idx) {
 				R_stat("models_with_strip_geometry");
 			}
 		}
+		if (idx % 2 == 0 && (idx / 2) % 5 == 2 && idx % 7 != 0) {
+			// LE: a line shape (NiLines: vertices, no triangles) stored behind the triangle shapes
+			NifFile cp;
+			Rng lr(mix(seed, 0x11E5));
+			if (loadNif(cp, m.bytes) == 0 && addLinesShape(cp, "wire_lines", lr)) {
+				m.bytes = saveNif(cp, true);
+				m.desc += " [+NiLines shape behind the triangle shapes]";
+				R_stat("models_with_a_line_shape");
+			}
+		}
 		if (idx % 9 == 4) {   // all-white vertex colours
 			for (auto s : m.nif->GetShapes()) { std::vector<Color4> c(s->GetNumVertices(), Color4(1, 1, 1, 1)); m.nif->SetColorsForShape(s, c); }
 			NifFile cp(*m.nif);
@@ -408,7 +418,7 @@ void run(size_t idx) {
 
 MonReg reg({"C12", "exploration",
 			"models: the real LE/SE samples x option combinations, API-built SK and SSE models (1-3 shapes, 3..300 vertices, skinned with 1..120 bones and 1..6 influences or unskinned, "
-			"vertex colours random / all white / none, random partitions, extra data, sibling name clashes, more than 80 bones in one partition, faces the stored partitions do not list, model-space-normal shaders, shapes that carry their own collision object, unskinned LE files whose first block is a geometry data block (root node second), converted object used before; one case in 16 with vertices no triangle uses as a labelled stress dimension) x "
+			"vertex colours random / all white / none, random partitions, extra data, sibling name clashes, more than 80 bones in one partition, faces the stored partitions do not list, model-space-normal shaders, shapes that carry their own collision object, unskinned LE files whose first block is a geometry data block (root node second), an extra NiLines shape (no triangles) behind the triangle shapes, converted object used before; one case in 16 with vertices no triangle uses as a labelled stress dimension) x "
 			"option combinations (removeParallax, calcBounds, fixBSXFlags, fixShaderFlags, headParts for single dynamic-capable shapes). Oracle per shape matched by name: positions "
 			"bit-exact, triangle multisets equal, UVs within half-float rounding, colours within 1/255 (all-white may be dropped), bone list equal, per-vertex weights equal to the normalised "
 			"four largest within 2e-3 (ties at the cut skipped), parent node, shader block, collision object (type, still targeting the shape) and controller chain kept, sibling names distinct; converted file reloads in the target version and satisfies the "
